@@ -63,6 +63,13 @@ type handler1 struct {
 	// asleep/awake state and guards pktBuffer (packets are sent from both the
 	// MQTT-SN and the MQTT receive loops).
 	snSendMutex sync.Mutex
+	// Sleeping client's keepalive, used by the MQTT-SN receive loop only.
+	sleepDuration     uint16
+	sleepPingerCancel context.CancelFunc
+	sleepPingerTimer  *time.Timer
+	// Number of PINGREQs sent to the MQTT broker on behalf of an active
+	// client which did not ask for them (their PINGRESPs are not forwarded).
+	gwPings int32
 }
 
 const (
@@ -450,6 +457,11 @@ func (h *handler1) handleMqtt(ctx context.Context, pkt mqPkts.ControlPacket) err
 		if h.state.Get() != util.StateActive {
 			return nil
 		}
+		// Response to a gateway-originated ping.
+		if atomic.AddInt32(&h.gwPings, -1) >= 0 {
+			return nil
+		}
+		atomic.AddInt32(&h.gwPings, 1)
 		return h.snSend(snPkts1.NewPingresp())
 
 	// MQTT broker PUBLISH QOS 0,1,2 transaction.
@@ -562,6 +574,12 @@ func (h *handler1) handleConnect(ctx context.Context, snConnect *snPkts1.Connect
 	// CONNECT in the asleep or awake state only signalizes that the client
 	// wants to be active again, see doc/specification-interpretation.md.
 	if state := h.state.Get(); state == util.StateAwake || state == util.StateAsleep {
+		// The client takes over the MQTT keepalive again.
+		h.stopSleepPinger()
+		atomic.AddInt32(&h.gwPings, 1)
+		if err := h.mqttPing(); err != nil {
+			return err
+		}
 		h.snSendMutex.Lock()
 		defer h.snSendMutex.Unlock()
 		h.setState(util.StateActive)
@@ -835,6 +853,12 @@ func (h *handler1) handleMqttSn(ctx context.Context, pkt snPkts.Packet) error {
 	// Client PING transaction (going AWAKE or just a keepalive).
 	case *snPkts1.Pingreq:
 		if h.state.Get() == util.StateAsleep {
+			// The client is alive => the MQTT broker must consider it alive for
+			// (at least) another sleep duration.
+			if err := h.mqttPing(); err != nil {
+				return err
+			}
+			h.restartSleepPinger(ctx)
 			h.snSendMutex.Lock()
 			defer h.snSendMutex.Unlock()
 			// Must be set before snSend otherwise the packets will be queued...
@@ -865,11 +889,12 @@ func (h *handler1) handleMqttSn(ctx context.Context, pkt snPkts.Packet) error {
 			return Shutdown
 		} else {
 			h.log.Debug("Going to sleep for %vs", snPkt.Duration)
-			if h.keepAlive != 0 && snPkt.Duration > h.keepAlive {
-				// We must ensure MQTT gateway considers client alive during sleep period.
-				cancelPinger := h.startSleepPinger(ctx)
-				time.AfterFunc(time.Duration(snPkt.Duration)*time.Second, cancelPinger)
+			// We must ensure MQTT broker considers client alive during sleep period.
+			h.sleepDuration = snPkt.Duration
+			if err := h.mqttPing(); err != nil {
+				return err
 			}
+			h.restartSleepPinger(ctx)
 			h.snSendMutex.Lock()
 			defer h.snSendMutex.Unlock()
 			// The reply must be sent (not queued) even if the client is
@@ -925,6 +950,36 @@ func (h *handler1) handleMqttSn(ctx context.Context, pkt snPkts.Packet) error {
 
 	default:
 		return fmt.Errorf("unsupported MQTT-SN packet type: %v", pkt)
+	}
+}
+
+func (h *handler1) mqttPing() error {
+	p := mqPkts.NewControlPacket(mqPkts.Pingreq).(*mqPkts.PingreqPacket)
+	return h.mqttSend(p)
+}
+
+// (Re)starts the sleep pinger when the sleeping client shows it is alive
+// (DISCONNECT with duration, wake-up PINGREQ). The pinger pings the MQTT
+// broker every keepalive period; it is stopped when the client does not show
+// up for the whole sleep duration (=> the MQTT broker detects the lost client
+// using the MQTT keepalive) or when the client leaves the sleep.
+// If the sleep duration is not longer than keepalive, the pings sent when the
+// client shows up suffice.
+func (h *handler1) restartSleepPinger(ctx context.Context) {
+	h.stopSleepPinger()
+	if h.keepAlive != 0 && h.sleepDuration > h.keepAlive {
+		cancel := h.startSleepPinger(ctx)
+		h.sleepPingerCancel = cancel
+		h.sleepPingerTimer = time.AfterFunc(time.Duration(h.sleepDuration)*time.Second, cancel)
+	}
+}
+
+func (h *handler1) stopSleepPinger() {
+	if h.sleepPingerCancel != nil {
+		h.sleepPingerTimer.Stop()
+		h.sleepPingerCancel()
+		h.sleepPingerCancel = nil
+		h.sleepPingerTimer = nil
 	}
 }
 
